@@ -62,6 +62,81 @@ def tie_rule(chk, db):
             if bad:
                 chk.violation("TIE", construct, "wrong-operand", "%s: for ord(a,b) = '%s' %s returns %s, the standard requires %s" % (
                     astx.loc(f), bad[0], name, bad[1], bad[2]), {"where": astx.loc(f)})
+    # minmax(a, b, comp): (b, a) when comp(b, a), else (a, b) -- for equivalent arguments the pair is (a, b), not (a, a)
+    for f in db.by_q.get("etl::minmax", []):
+        ps = f["params"]
+        if len(ps) != 3 or "initializer_list" in ps[0]["ty"] or f.get("body") is None:
+            continue
+        a, b, comp = ps[0]["n"], ps[1]["n"], ps[2]["n"]
+        body = f["body"]["s"] if f["body"].get("k") == "seq" else []
+        rets = [st for st in body if st.get("k") == "return"]
+        n += 1
+        chk.instance("TIE")
+        construct = astx.sig(f)
+        if len(rets) != 1 or rets[0].get("e") is None:
+            chk.unknown_instance("TIE", construct, "not a single return")
+            continue
+
+        class NMx(Exception):
+            pass
+
+        def elem(e, o):
+            """'a' / 'b' for the element an expression denotes when ord(a, b) = o"""
+            e = astx.strip_casts(e)
+            if e is None:
+                raise NMx()
+            if e.get("k") == "ref" and e.get("n") in (a, b):
+                return "a" if e["n"] == a else "b"
+            if e.get("k") == "call" and astx.callee(e)[0] in ("min", "max") and len(e["a"]) in (2, 3):
+                x, y = elem(e["a"][0], o), elem(e["a"][1], o)
+                oo = o if (x, y) == ("a", "b") else ({"<": ">", ">": "<", "=": "="}[o] if (x, y) == ("b", "a") else "=")
+                if astx.callee(e)[0] == "min":
+                    return y if oo == ">" else x          # [alg.min.max]: the first argument unless the second is smaller
+                return y if oo == "<" else x              # max: the first argument unless it is smaller than the second
+            if e.get("k") == "cond":
+                return elem(e["t"] if truth(e["c"], o) else e["f"], o)
+            raise NMx()
+
+        def truth(c, o):
+            c = astx.strip_casts(c)
+            if c is not None and c.get("k") == "un" and c["op"] == "!":
+                return not truth(c["e"], o)
+            if c is not None and c.get("k") == "call" and len(c["a"]) == 2 and astx.strip_casts(c["f"]) is not None and \
+                    astx.strip_casts(c["f"]).get("n") == comp:
+                x, y = elem(c["a"][0], o), elem(c["a"][1], o)
+                if (x, y) == ("a", "b"):
+                    return o == "<"
+                if (x, y) == ("b", "a"):
+                    return o == ">"
+                return False
+            raise NMx()
+
+        def pair_of(e, o):
+            e = astx.strip_casts(e)
+            if e is None:
+                raise NMx()
+            if e.get("k") == "cond":
+                return pair_of(e["t"] if truth(e["c"], o) else e["f"], o)
+            args = e.get("a") if e.get("k") in ("construct", "initlist", "call") else None
+            if args is not None and len(args) == 1 and args[0] is not None and args[0].get("k") == "initlist":
+                args = args[0]["a"]
+            if args is not None and len(args) == 2:
+                return (elem(args[0], o), elem(args[1], o))
+            raise NMx()
+        bad = None
+        try:
+            for o in "<=>":
+                got = pair_of(rets[0]["e"], o)
+                want = ("b", "a") if o == ">" else ("a", "b")
+                if got != want and bad is None:
+                    bad = (o, got, want)
+        except NMx:
+            chk.unknown_instance("TIE", construct, "returned pair not modelled")
+            continue
+        chk.obligation("TIE", construct, bad is None, evaluations=3)
+        if bad:
+            chk.violation("TIE", construct, "wrong-operand", "%s: for ord(a,b) = '%s' minmax returns (%s, %s), the standard requires (%s, %s)" % (
+                astx.loc(f), bad[0], bad[1][0], bad[1][1], bad[2][0], bad[2][1]), {"where": astx.loc(f)})
     return n
 
 
@@ -77,6 +152,8 @@ META = (META[0] + ' DISTGUARD; IT1n also covers range ends formed from the count
 
 META = (META[0] + ' SELFMOVE (no algorithm move-assigns an element onto itself).', META[1])
 
+META = (META[0] + ' STALEREP (an element cached as the representative of the current group is refreshed in the loop that starts new groups; controls in fixtures/extra8_pos.hpp); TIE covers minmax.', META[1])
+
 
 def run(chk, tier):
     db = D.load("checks")
@@ -91,7 +168,8 @@ def run(chk, tier):
         chk.analysis_broken("TIEMOVE: fewer than 2 stable algorithms with a functor-guarded reordering (floor 2)")
     from ..rules import extra8 as _X8
     _X8.dist_guard_area(chk, db, ['_algorithm/', '_numeric/'])      # DISTGUARD
-    _X8.positive_controls(chk, D, ('DISTGUARD',))
+    _X8.positive_controls(chk, D, ('DISTGUARD', 'STALEREP'))
+    _X8.stale_rep_area(chk, db, ['_algorithm/', '_numeric/'])      # STALEREP (zero expected on the library)
     if _X8.self_move_area(chk, db, ['_algorithm/']) < 3:      # SELFMOVE
         chk.analysis_broken('SELFMOVE: fewer than 3 algorithms that move-assign through two cursors (floor 3)')
     if _ITX.rstep_area(chk, db, ['_algorithm/', '_numeric/', '_memory/']) < 5:      # RSTEP
